@@ -103,6 +103,9 @@ def step? (args : List String) : Option String :=
         | some bs => "ok " ++ bytesToHex bs
         | none => "err"
     | none => "bad-op"
+  | ["j2k-unframe", hx] => some <| match unframe (hexToBytes hx) with
+    | some body => "ok " ++ bytesToHex body
+    | none => "err"
   | ["j2k-glue-img-dec", w, h, c, p, sg, l, cbw, cbh, prog, mct, hx] =>
     some <| match parseICfg [w, h, c, p, sg, l, cbw, cbh, prog, mct] with
     | some cfg =>
